@@ -190,6 +190,14 @@ func (x *Exec) doBinOp(fr *Frame, in *ssa.BinOp, reach *Term) *Sym {
 		} else if k == KFloat {
 			r = x.vc.fresh("fcmp", SBool)
 		} else {
+			if (a.LV != nil) != (b.LV != nil) || (a.LV != nil && b.LV != nil && a.LV.Root == RElem) {
+				if a.LV != nil && a.LV.Root == RElem && dualTypes[typeName(a.LV.RootT)] {
+					a = x.reify(a)
+				}
+				if b.LV != nil && b.LV.Root == RElem && dualTypes[typeName(b.LV.RootT)] {
+					b = x.reify(b)
+				}
+			}
 			r = eqSym(a, b)
 		}
 		if in.Op == token.NEQ {
